@@ -77,7 +77,13 @@ def pipe_rule(repo, res, rule="PIPE"):
     res.floor("ARMS", n, 8)
 
 
+def _bash_printer_skips(repo, res):
+    from vlib import rules_skips as SK, tables
+    SK.skips_rule(repo, res, tables.load("skips")["row"], only={q for q in SK.printers(repo) if q.startswith("bash::")})
+
+
 def run(repo, res, tier):
+    _bash_printer_skips(repo, res)
     from . import c02
     c02.postorder(repo, res)  # the automaton handed to the emitter is built from the fully expanded grammar (definitions expanded in dependency order)
     pipe_rule(repo, res)
